@@ -97,6 +97,7 @@ pub fn run(ctx: &Ctx, cfg: &DiffCfg<'_>, patterns: &[Node], texts: &[String]) ->
         let _ = hook_take();
         let (mut any_match, mut any_nomatch, mut any_bt, mut any_del, mut any_grp_some, mut any_grp_none) = (false, false, false, false, false, false);
         let (mut cond_true, mut cond_false) = (false, false);
+        let mut cap_hits = 0;
         for t in texts {
             for from in gen::offsets(t) {
                 acc.evals += 1;
@@ -137,6 +138,13 @@ pub fn run(ctx: &Ctx, cfg: &DiffCfg<'_>, patterns: &[Node], texts: &[String]) ->
                         _ => "runtime-error",
                     };
                     acc.violate(Violation::new(cfg.prop, monitor, &s, t, from, "captures_from_pos", show_out(&want), got.show()));
+                    if got.is_step_cap() {
+                        cap_hits += 1;
+                        if cap_hits >= 2 {
+                            acc.count("patterns-abandoned-after-2-step-cap-hits");
+                            return;
+                        }
+                    }
                     continue;
                 };
                 match &gout {
